@@ -48,6 +48,23 @@ def run(ctx):
             dod, Lf, table = oracle.table_oracle(edges, w, massive, [0, 1], D)
             cases.append(dict(edges=edges, weights=w, massive=massive, ext=[0, 1], D=D, table=table, dod=dod, loops=Lf,
                               accepted=not oracle.divergent_subsets(table), name="cycle_massive_opposite"))
+    # one huge propagator power next to a small but clearly positive omega elsewhere (a tolerance relative to the weight SUM would
+    # reject a convergent graph); thresholds +-5e-9, +-1e-7
+    for heavy in (60.0, 150.0, 1000.0, 1e6):
+        for delta in (5e-9, -5e-9, 1e-7, -1e-7):
+            for edges, ext in (([(0, 1), (1, 2), (2, 0)], [0, 1, 2]), ([(0, 1), (1, 2), (2, 3), (3, 0)], [0, 1, 2, 3])):
+                n = len(edges)
+                w = [heavy] + [1.0] * (n - 2) + [1.5 - (n - 2) * 1.0 + (n - 3) * 1.0 + delta if n == 3 else 1.0]
+                if n == 3:
+                    w = [heavy, 1.0, 0.5 + delta]          # subset {e1,e2}: omega = 1.5 + delta - ... (D=3: -1.5 only with a loop)
+                massive = [True] + [False] * (n - 1)
+                base = dict(edges=edges, weights=w, massive=massive, ext=ext, D=3)
+                dod, Lf, table = oracle.table_oracle(edges, w, massive, ext, 3)
+                base.update(table=table, dod=dod, loops=Lf, accepted=not oracle.divergent_subsets(table), name="heavy_weight")
+                t = graphs.near_threshold(rng, base, delta)
+                for cc in (base, t):
+                    if cc is not None:
+                        cc = dict(cc); cc["name"] = "heavy_weight"; cases.append(cc)
     # the same endpoints, weights and externals under another mass pattern (history inside one process)
     for c in list(cases[: (25 if ctx.quick else 200)]):
         c2 = graphs.remass(rng, c)
